@@ -436,4 +436,101 @@ theorem encodeTypedDataV4_total (p : TypedData) (fuel : Nat) (hf : docNeed p ≤
 theorem getInteger_same (lit : String) (fl rat : Model.EthTypes.ExtNum) :
     getInteger (.num lit fl rat) = getInteger (.str lit fl rat) := rfl
 
+/-! ### an integer member is hashed as exactly the integer that was read, or rejected -/
+
+/-- **Never a different value.** If an integer member (uint<M>, address-width or int<M> reader) is encoded at all, the
+    32-byte word that goes into the hash is the unsigned / two's-complement encoding of exactly the integer the reader
+    produced from the input, and that integer lies in the range of the declared width — an out-of-range or inexact
+    input yields an error instead (`getInteger` itself only accepts what the text denotes: C19.bigint_sound). -/
+theorem int_member_exact (info : ElemInfo) (m : Nat) (v : Ext) (w : Bytes)
+    (hr : info.reader = "getIntegerFromInterface") (hm : m ≤ 256)
+    (hc : codecOf info.enc = .uint ∨ (codecOf info.enc = .sint ∧ 8 ≤ m ∧ m % 8 = 0))
+    (h : abiEncode info m v = .ok w) :
+    ∃ z : Int, getInteger v = .ok z ∧
+      ((codecOf info.enc = .uint ∧ 0 ≤ z ∧ z < 2 ^ m ∧ w = toBE 32 z.toNat) ∨
+       (codecOf info.enc = .sint ∧ -(2 : Int) ^ (m - 1) ≤ z ∧ z < 2 ^ (m - 1) ∧ w = toBE 32 (z % 2 ^ 256).toNat)) := by
+  unfold abiEncode at h
+  cases hre : readElementary info v with
+  | err => rw [hre] at h; cases h
+  | panic => rw [hre] at h; cases h
+  | ok cv =>
+    rw [hre] at h
+    simp only [] at h
+    unfold readElementary at hre
+    rw [if_pos hr] at hre
+    cases hg : getInteger v with
+    | err => rw [hg] at hre; cases hre
+    | panic => rw [hg] at hre; cases hre
+    | ok z =>
+      rw [hg] at hre
+      simp only [Outcome.map] at hre
+      injection hre with hre
+      subst hre
+      refine ⟨z, rfl, ?_⟩
+      cases he : encodeElem info m (.int z) with
+      | err => rw [he] at h; cases h
+      | panic => rw [he] at h; cases h
+      | ok p =>
+        rw [he] at h
+        obtain ⟨d, dyn⟩ := p
+        simp only [] at h
+        injection h with h
+        subst h
+        unfold encodeElem at he
+        rcases hc with hc | ⟨hc, h8, hmod⟩
+        · left
+          rw [hc] at he
+          simp only [] at he
+          by_cases hneg : z < 0
+          · rw [if_pos hneg] at he; cases he
+          · rw [if_neg hneg] at he
+            by_cases hbl : bitLen z.toNat > m
+            · rw [if_pos hbl] at he; cases he
+            · rw [if_neg hbl] at he
+              have hlt : z.toNat < 2 ^ m := bitLen_ge _ _ (by omega)
+              have hfill : fillBytes? z.toNat 32 = .ok (toBE 32 z.toNat) := by
+                have h1 : 2 ^ m ≤ 2 ^ 256 := Nat.pow_le_pow_right (by decide) hm
+                have h2 : (256 : Nat) ^ 32 = 2 ^ 256 := by rw [show (256 : Nat) = 2 ^ 8 from rfl, ← Nat.pow_mul]
+                have : z.toNat < 256 ^ 32 := by omega
+                unfold fillBytes?
+                rw [if_pos this]
+              rw [hfill] at he
+              simp only [Outcome.bind] at he
+              injection he with he; injection he with he1 _
+              have hz : (z.toNat : Int) = z := Int.toNat_of_nonneg (by omega)
+              have hzlt : z < 2 ^ m := by
+                have : ((2 ^ m : Nat) : Int) = (2 : Int) ^ m := by simp
+                omega
+              exact ⟨hc, by omega, hzlt, he1.symm⟩
+        · right
+          rw [hc] at he
+          simp only [] at he
+          by_cases hfit : checkSignedIntFits z m = true
+          · rw [if_pos hfit] at he
+            injection he with he; injection he with he1 _
+            refine ⟨hc, ?_, ?_, by rw [← he1]; rfl⟩
+            · unfold checkSignedIntFits at hfit
+              by_cases h0 : z = 0
+              · subst h0
+                have : (0 : Int) < 2 ^ (m - 1) := Int.pow_pos (by decide)
+                omega
+              · rw [if_neg h0] at hfit
+                by_cases hp : z > 0
+                · have : (0 : Int) < 2 ^ (m - 1) := Int.pow_pos (by decide)
+                  omega
+                · rw [if_neg hp] at hfit
+                  simp only [Bool.and_eq_true, decide_eq_true_eq] at hfit
+                  exact hfit.2
+            · unfold checkSignedIntFits at hfit
+              by_cases h0 : z = 0
+              · subst h0; exact Int.pow_pos (by decide)
+              · rw [if_neg h0] at hfit
+                by_cases hp : z > 0
+                · rw [if_pos hp] at hfit
+                  simp only [Bool.and_eq_true, decide_eq_true_eq] at hfit
+                  omega
+                · have : (0 : Int) < 2 ^ (m - 1) := Int.pow_pos (by decide)
+                  omega
+          · rw [if_neg hfit] at he; cases he
+
 end FFS.Props.C14
